@@ -1022,4 +1022,197 @@ theorem step_keeps {r : RingHead} {buf : List Byte} (h : r.WF) (hb : r.size.toNa
   | moveTailOne => exact ⟨_, buf, .unit, rfl, wf_moveTailOne h, rfl, rfl⟩
   | clean => exact ⟨_, buf, .unit, rfl, wf_clean h, rfl, rfl⟩
 
+
+/-! ### ring_counter -/
+
+theorem sub_emod_self (x s : Int) : (x - s) % s = x % s := by
+  have := Int.add_emod_right (x - s) s
+  rw [Int.sub_add_cancel] at this
+  exact this.symm
+
+theorem rcDown_spec (size : Int) (hs : 0 < size) : ∀ (fuel : Nat) (x : Int), x.toNat ≤ fuel →
+    0 ≤ x → rcDown size fuel x = x % size
+  | 0, x, h, h0 => by
+      have : x = 0 := by omega
+      simp [rcDown, this]
+  | fuel + 1, x, h, h0 => by
+      unfold rcDown
+      split
+      · rw [rcDown_spec size hs fuel (x - size) (by omega) (by omega), sub_emod_self]
+      · rw [Int.emod_eq_of_lt h0 (by omega)]
+
+theorem rcDown_of_lt (size : Int) : ∀ (fuel : Nat) (x : Int), x < size → rcDown size fuel x = x
+  | 0, _, _ => rfl
+  | fuel + 1, x, h => by unfold rcDown; rw [if_neg (by omega)]
+
+theorem rcUp_spec (size : Int) (hs : 0 < size) : ∀ (fuel : Nat) (x : Int), (-x).toNat ≤ fuel →
+    x < size → rcUp size fuel x = x % size
+  | 0, x, h, h1 => by
+      have : 0 ≤ x := by omega
+      simp only [rcUp]; rw [Int.emod_eq_of_lt this h1]
+  | fuel + 1, x, h, h1 => by
+      unfold rcUp
+      split
+      · rw [rcUp_spec size hs fuel (x + size) (by omega) (by omega), Int.add_emod_right]
+      · rw [Int.emod_eq_of_lt (by omega) h1]
+
+/-- `ring_counter_fixup_pos(pos) = pos mod size` for every `int pos` -/
+theorem rcFixupPos_eq (rc : RingCounter) (hs : 0 < rc.size) (pos : Int) :
+    rcFixupPos rc pos = pos % rc.size := by
+  unfold rcFixupPos
+  by_cases h0 : 0 ≤ pos
+  · have e := rcDown_spec rc.size hs pos.toNat pos (Nat.le_refl _) h0
+    have h1 := Int.emod_nonneg pos (Int.ne_of_gt hs)
+    have h2 := Int.emod_lt_of_pos pos hs
+    simp only [e]
+    rw [rcUp_spec rc.size hs _ _ (Nat.le_refl _) h2, Int.emod_emod_of_dvd _ (Int.dvd_refl _)]
+  · have e := rcDown_of_lt rc.size pos.toNat pos (by omega)
+    simp only [e]
+    exact rcUp_spec rc.size hs _ _ (Nat.le_refl _) (by omega)
+
+/-- `ring_counter_prev(i) = (counter − i) mod size` whenever `counter − i < size`
+(in particular for every `i ≥ 0` when `counter < size`) -/
+theorem rcPrev_eq (rc : RingCounter) (hs : 0 < rc.size) (i : Int) (h : rc.counter - i < rc.size) :
+    rcPrev rc i = (rc.counter - i) % rc.size := by
+  unfold rcPrev
+  exact rcUp_spec rc.size hs _ _ (Nat.le_refl _) h
+
+theorem rcLast_eq (rc : RingCounter) (hs : 0 < rc.size) (no : Int) :
+    rcLast rc no = (rc.counter - no) % rc.size := rcFixupPos_eq rc hs _
+
+theorem rcIncrement_eq (rc : RingCounter) (hs : 0 < rc.size) (a : Int) (h : 0 ≤ rc.counter + a) :
+    (rcIncrement rc a).counter = (rc.counter + a) % rc.size ∧ (rcIncrement rc a).size = rc.size := by
+  unfold rcIncrement rcFixup
+  exact ⟨rcDown_spec rc.size hs _ _ (Nat.le_refl _) h, rfl⟩
+
+theorem rcSet_eq (rc : RingCounter) (hs : 0 < rc.size) (v : Int) (h : 0 ≤ v) :
+    (rcSet rc v).counter = v % rc.size ∧ (rcSet rc v).size = rc.size := by
+  unfold rcSet rcFixup
+  exact ⟨rcDown_spec rc.size hs _ _ (Nat.le_refl _) h, rfl⟩
+
+
+/-! ### cyclic_buffer -/
+
+/-- slot of the `k`-th previous sample of a cyclic buffer whose newest sample is in
+slot `c`: `(c − k) mod n`, without `%` -/
+def cprev (n c k : Nat) : Nat := if k ≤ c then c - k else c + n - k
+
+theorem cprev_lt {n c k : Nat} (hc : c < n) (hk : k < n) : cprev n c k < n := by
+  unfold cprev; grind
+
+theorem emod_cprev {n c k : Nat} (hc : c < n) (hk : k < n) :
+    ((c : Int) - (k : Int)) % (n : Int) = (cprev n c k : Nat) := by
+  unfold cprev
+  split
+  · rw [Int.emod_eq_of_lt (by omega) (by omega)]; omega
+  · rw [← Int.add_emod_right, Int.emod_eq_of_lt (by omega) (by omega)]; omega
+
+theorem cprev_eq_mod {n c k : Nat} (hc : c < n) (hk : k < n) : cprev n c k = (c + n - k) % n := by
+  rw [mod_wrap (by omega)]; unfold cprev; grind
+
+theorem cprev_next {n c k : Nat} (_hc : c < n) (hk : k + 1 < n) :
+    cprev n (nextIdx n c) (k + 1) = cprev n c k := by
+  unfold cprev nextIdx; grind
+
+theorem cprev_next_ne {n c k : Nat} (_hc : c < n) (hk : k + 1 < n) :
+    cprev n c k ≠ nextIdx n c := by
+  unfold cprev nextIdx; grind
+
+theorem cprev_last {n c : Nat} (hc : c < n) : cprev n c (n - 1) = nextIdx n c := by
+  unfold cprev nextIdx; grind
+
+structure CInv {α : Type} (c : Cyclic α) (n : Nat) (log : List α) : Prop where
+  pos : 0 < n
+  len : c.data.length = n
+  sz : c.counter.size = (n : Int)
+  cnt : ∃ k : Nat, c.counter.counter = (k : Int) ∧ k < n
+  fill : c.fill = min log.length n
+  content : ∀ k (hk : k < log.length), k < n →
+    c.data[cprev n c.counter.counter.toNat k]? = some log[log.length - 1 - k]
+
+variable {α : Type}
+
+theorem cinv_mk' (dflt : α) (n : Nat) (hn : 0 < n) : CInv (Cyclic.mk' dflt n) n [] := by
+  refine ⟨hn, by simp [Cyclic.mk'], by simp [Cyclic.mk', rcInit], ⟨0, by simp [Cyclic.mk', rcInit], hn⟩,
+    by simp [Cyclic.mk'], ?_⟩
+  intro k hk; simp at hk
+
+theorem cinv_resize (dflt : α) (c : Cyclic α) (n : Nat) (hn : 0 < n) :
+    CInv (Cyclic.resize dflt c n) n [] := cinv_mk' dflt n hn
+
+theorem at?_natCast (d : List α) (k : Nat) : Cyclic.at? d (k : Int) = d[k]? := by
+  unfold Cyclic.at?
+  rw [if_neg (by omega)]; simp
+
+theorem cinv_nth {c : Cyclic α} {n : Nat} {log : List α} (h : CInv c n log) (i : Nat)
+    (hi : i < log.length) (hin : i < n) :
+    c.nth (i : Int) = some log[log.length - 1 - i] := by
+  obtain ⟨k, hk, hkn⟩ := h.cnt
+  unfold Cyclic.nth
+  rw [rcPrev_eq c.counter (by rw [h.sz]; omega) _ (by rw [h.sz, hk]; omega), h.sz, hk,
+    emod_cprev hkn hin, at?_natCast]
+  have := h.content i hi hin
+  rw [hk] at this
+  simpa using this
+
+theorem cinv_push {c : Cyclic α} {n : Nat} {log : List α} (h : CInv c n log) (v : α) :
+    ∃ c' old, c.push v = some (c', old) ∧ CInv c' n (log ++ [v]) ∧
+      (∀ (hfull : n ≤ log.length), old = log[log.length - n]'(by have := h.pos; omega)) := by
+  obtain ⟨k, hk, hkn⟩ := h.cnt
+  have hpos := h.pos
+  have hinc := rcIncrement_eq c.counter (by rw [h.sz]; omega) 1 (by rw [hk]; omega)
+  have hnext : (rcIncrement c.counter 1).counter = ((nextIdx n k : Nat) : Int) := by
+    rw [hinc.1, h.sz, hk, nextIdx_eq_mod hkn]; simp
+  have hlt : nextIdx n k < c.data.length := by rw [h.len]; exact nextIdx_lt hkn
+  refine ⟨{ data := c.data.set (nextIdx n k) v, counter := rcIncrement c.counter 1,
+            fill := if (c.fill : Int) < c.counter.size then c.fill + 1 else c.fill },
+    c.data[nextIdx n k], ?_, ?_, ?_⟩
+  · simp [Cyclic.push, rcGet, hnext, at?_natCast, List.getElem?_eq_getElem hlt]
+  · refine ⟨hpos, by simp [h.len], by simp [hinc.2, h.sz], ⟨nextIdx n k, hnext, nextIdx_lt hkn⟩, ?_, ?_⟩
+    · simp only [h.fill, h.sz, List.length_append, List.length_singleton]
+      split <;> omega
+    · intro j hj hjn
+      simp only [hnext, Int.toNat_natCast]
+      simp only [List.length_append, List.length_singleton] at hj
+      cases j with
+      | zero =>
+        have : cprev n (nextIdx n k) 0 = nextIdx n k := by unfold cprev; simp
+        rw [this, List.getElem?_set_self hlt]
+        simp
+      | succ j =>
+        rw [cprev_next hkn hjn, List.getElem?_set_ne (cprev_next_ne hkn hjn).symm]
+        have := h.content j (by omega) (by omega)
+        rw [hk] at this
+        simp only [Int.toNat_natCast] at this
+        rw [this, List.getElem_append_left
+          (by simp only [List.length_append, List.length_singleton]; omega)]
+        congr 2
+        simp only [List.length_append, List.length_singleton]
+        omega
+  · intro hfull
+    have := h.content (n - 1) (by omega) (by omega)
+    rw [hk] at this
+    simp only [Int.toNat_natCast, cprev_last hkn] at this
+    rw [List.getElem?_eq_getElem hlt] at this
+    have e := Option.some.inj this
+    rw [e]
+    congr 1
+    omega
+
+/-- push a whole list of samples -/
+def pushAll : Cyclic α → List α → Option (Cyclic α)
+  | c, [] => some c
+  | c, v :: vs => match c.push v with
+    | none => none
+    | some (c', _) => pushAll c' vs
+
+theorem cinv_pushAll : ∀ (vs : List α) {c : Cyclic α} {n : Nat} {log : List α}, CInv c n log →
+    ∃ c', pushAll c vs = some c' ∧ CInv c' n (log ++ vs)
+  | [], c, n, log, h => ⟨c, rfl, by simpa using h⟩
+  | v :: vs, c, n, log, h => by
+      obtain ⟨c1, old, e, h1, -⟩ := cinv_push h v
+      obtain ⟨c2, e2, h2⟩ := cinv_pushAll vs h1
+      exact ⟨c2, by simp [pushAll, e, e2], by simpa using h2⟩
+
+
 end Igris.C03
